@@ -11,6 +11,7 @@ Faults (``faults``: {response path tuple: kind}) are applied here for the
 in the resolver body for ``err`` / ``errx`` / ``boom``.
 """
 import collections.abc
+import decimal
 import zlib
 
 from .workload import ENUM_VALUES, named
@@ -151,7 +152,10 @@ class World:
             return (h % 2001) - 1000
         if base == "Float":
             if self.nonfinite and h % 5 == 0:
-                return (float("inf"), float("-inf"), float("nan"))[h % 3]
+                # as floats, and in the other forms float() turns into one
+                return (float("inf"), float("-inf"), float("nan"), "NaN",
+                        "-Infinity", "1e999", decimal.Decimal("NaN"),
+                        decimal.Decimal("Infinity"))[(h // 5) % 8]
             v = ((h % 4001) - 2000) / 4.0
             if h % 11 == 0:
                 # equal in Python, distinct in JSON
